@@ -34,7 +34,7 @@ def rebuild(t, fn):
         elif tag == 'attr':
             out = T.get_attr(rec(t[1]), t[2])
         elif tag == 'call':
-            out = ('call', rec(t[1]), tuple(rec(x) for x in t[2]), tuple((k2, rec(v)) for k2, v in t[3]))
+            out = ('call', rec(t[1]), tuple(rec(x) for x in t[2]), tuple(('kw', k2[1], rec(k2[2])) for k2 in t[3]))
         elif tag == 'ite':
             out = T.mk_ite(rec(t[1]), rec(t[2]), rec(t[3]))
         else:
